@@ -309,6 +309,7 @@ def corpus_cycles(ctx):
         # always present: files with multi-line records that a save/reload cycle must not grow (2bcw.pdb: 14-line COMPND)
         always = [p for p in files if p.name in ("2bcw.pdb", "2luv.pdb", "peptide_2luv.sdf")]
         files = always + [p for p in files[:45] if p not in always]
+    nshift = 0
     for p in files:
         if ctx.time_left(budget) < 0:
             break
@@ -327,6 +328,21 @@ def corpus_cycles(ctx):
             ctx.count(f"corpus:{fmt}", [p.name, fmt], "ok" if res is None else "FAIL:" + r1)
             if res:
                 ctx.fail("corpus:" + res[0], f"{p.name} -> {res[1]}", {"kind": "corpus", "file": p.name, "format": fmt})
+        # the same system far from the origin (large or off-centre molecules): cycles must settle there as well
+        if x.atcoords is not None and getattr(x, "cube", None) is None and nshift < 14:
+            import copy
+
+            import numpy as np
+
+            nshift += 1
+            y = copy.deepcopy(x)
+            y.atcoords = y.atcoords + np.array([40.25, -25.5, 13.125])
+            for fmt in ("xyz", "pdb", "mol2", "sdf", "molden", "molekel", "wfn", "wfx", "fchk"):
+                res = c15_eval(_Any(fmt), y)
+                ctx.count(f"corpus-shifted:{fmt}", [p.name, fmt], "ok" if res is None else "FAIL:" + res[0])
+                if res:
+                    ctx.fail("corpus-shifted:" + res[0], f"{p.name} translated by (40.25, -25.5, 13.125) bohr -> {res[1]}",
+                             {"kind": "corpus", "file": p.name, "format": fmt, "shift": [40.25, -25.5, 13.125]})
 
 
 def _json_inject(obj, depth=0):
@@ -456,4 +472,8 @@ def replay_corpus(inp):
     with warnings.catch_warnings():
         warnings.simplefilter("ignore")
         x = load_one(str(REPO / "iodata" / "test" / "data" / inp["file"]))
+    if inp.get("shift"):
+        import numpy as np
+
+        x.atcoords = x.atcoords + np.array(inp["shift"])
     return c15_eval(_Any(inp["format"]), x) is not None
